@@ -9,7 +9,8 @@ from . import c02
 PROP = "C11"
 MODULE = "GmqttVerif.Properties.C11"
 NS = "GmqttVerif.SubStore."
-THEOREMS = [NS + "shared_members_exact", NS + "shared_match_exact", NS + "leave_is_local"]
+THEOREMS = [NS + n for n in ["shared_members_exact", "shared_match_exact", "leave_is_local_unsubscribe",
+                             "leave_is_local_unsubscribeAll", "leave_is_local"]]
 COMPS = ["substore"]
 
 def gen_churn(rng):
@@ -66,6 +67,8 @@ def streams(tier):
         (core.Stream("substore-shared", "substore", c02.gen_shared, c02.predicate, c02.shared_leave_then_query, keep_prefix=1),
          6000 if q else 200000),
     ]
+
+RECOGNISERS = c02.RECOGNISERS
 
 def run(r):
     return core.standard_run(r, __import__(__name__, fromlist=["x"]))
